@@ -88,6 +88,26 @@ func (l *alog) has(ev string, key string, val int) bool {
 	return false
 }
 
+// injected failures come in several shapes: a pointer-shaped error, and value-typed errors whose value is the ZERO value of
+// their type (errCode(0), a zero struct) - non-nil errors all the same
+type errCode int
+
+func (errCode) Error() string { return "injected failure (code 0)" }
+
+type errRec struct{ code int }
+
+func (errRec) Error() string { return "injected failure (zero record)" }
+
+func injected(what string, k int) error {
+	switch k % 3 {
+	case 1:
+		return errCode(0)
+	case 2:
+		return errRec{}
+	}
+	return errors.New("injected " + what + " failure")
+}
+
 // ---- loaders (not components)
 type ldU struct {
 	l *alog
@@ -98,7 +118,7 @@ type ldU struct {
 func (x *ldU) LoadConfig() ([]byte, error) {
 	x.l.emit("load", map[string]any{"i": x.i, "ok": !x.p.Fail})
 	if x.p.Fail {
-		return nil, errors.New("injected loader failure")
+		return nil, injected("loader", x.i)
 	}
 	return []byte(x.p.Doc), nil
 }
@@ -186,7 +206,7 @@ func (x *rnU) Naming() string { return x.name }
 func (x *rnU) Run() error {
 	x.l.emit("run", map[string]any{"i": x.i, "ok": !x.p.Fail})
 	if x.p.Fail {
-		return errors.New("injected runner failure")
+		return injected("runner", x.i)
 	}
 	return nil
 }
@@ -259,7 +279,7 @@ func (x *closerC) Close() error {
 	<-x.gate
 	x.l.emit("closeEnd", map[string]any{"j": x.j, "ok": !x.p.Fail})
 	if x.p.Fail {
-		return errors.New("injected closer failure")
+		return injected("closer", x.j)
 	}
 	return nil
 }
@@ -333,7 +353,7 @@ func (x *plainC) Init() error {
 	}
 	x.l.emit("init", map[string]any{"c": x.c, "ok": !x.fail})
 	if x.fail {
-		return errors.New("injected init failure")
+		return injected("init", x.c)
 	}
 	return nil
 }
@@ -577,6 +597,18 @@ type spM struct{ spU }
 
 func (x *spM) Priority() {}
 
+// participants of UNCOMPARABLE dynamic types (a slice type, a func type): legitimate implementers of Ordered / Priority
+type spS []int // [order, index]
+
+func (x spS) Order() int { return x[0] }
+func (x spS) idx() int   { return x[1] }
+
+type spSP []int
+
+func (x spSP) Order() int { return x[0] }
+func (x spSP) idx() int   { return x[1] }
+func (x spSP) Priority()  {}
+
 type idxer interface{ idx() int }
 
 func (x *spU) idx() int { return x.i }
@@ -608,19 +640,31 @@ func cmdSort(in, out string) error {
 			switch p.Cls {
 			case "prio":
 				items[i] = &spP{spO{spU{i + 1}, realOrd(p.Ord)}}
+				if (i+len(c.Parts))%3 == 0 {
+					items[i] = spSP{realOrd(p.Ord), i + 1}
+				}
 			case "ord":
 				items[i] = &spO{spU{i + 1}, realOrd(p.Ord)}
+				if (i+len(c.Parts))%3 == 0 {
+					items[i] = spS{realOrd(p.Ord), i + 1}
+				}
 			case "mark":
 				items[i] = &spM{spU{i + 1}}
 			default:
 				items[i] = &spU{i + 1}
 			}
 		}
-		sorted := framework_helper.SortOrderedComponents(items)
-		res := make([]int, len(sorted))
-		for i, x := range sorted {
-			res[i] = x.(idxer).idx()
-		}
+		res := []int{}
+		func() {
+			// a sort that panics on legitimate participants produced no sequence at all: recorded as the empty result
+			defer func() { _ = recover() }()
+			sorted := framework_helper.SortOrderedComponents(items)
+			r := make([]int, len(sorted))
+			for i, x := range sorted {
+				r[i] = x.(idxer).idx()
+			}
+			res = r
+		}()
 		if c.Parts == nil {
 			c.Parts = []APart{}
 		}
